@@ -421,6 +421,33 @@ Theorem C18_oracles_satisfiable :
 Proof. exact oracles_satisfiable. Qed.
 Print Assumptions C18_oracles_satisfiable.
 
+(* the premises of C18_agrees_with_sphinx, of C18_bad_line_isolated and of C18_sphinx_roundtrip hold for concrete
+   inputs (identity codec, Gallina UTF-8 decoder, regex engine): the theorems are not vacuous *)
+Theorem C18_agrees_premises_satisfiable :
+  let content := v2_header ++ body_good in
+  Forall (fun l => utf8_decode l <> None) (firstn 4 (bsplit_nl 4 content)) /\
+  (forall text, sphinx_text (fun z => Some z) utf8_decode content = Some text -> crlf_only text) /\
+  (exists sinv, id_sphinx content uri_x = IOk sinv) /\
+  plain_header content.
+Proof. exact agrees_premises_satisfiable. Qed.
+Print Assumptions C18_agrees_premises_satisfiable.
+
+Theorem C18_bad_line_premises_satisfiable :
+  exists l0 l1 l2 l3 z z' A bad B s,
+    find_nl l0 = None /\ find_nl l1 = None /\ find_nl l2 = None /\ find_nl l3 = None /\
+    (exists s0, utf8_decode l0 = Some s0 /\ rstrip s0 = hdr_v2) /\
+    inflates unit tt idstep idflush iderr z (A ++ bad ++ 10 :: B) /\
+    inflates unit tt idstep idflush iderr z' (A ++ B) /\
+    aligned A /\ find_nl bad = None /\ utf8_decode bad = Some s /\
+    v2_malformed match_line_exec s.
+Proof. exact bad_line_premises_satisfiable. Qed.
+Print Assumptions C18_bad_line_premises_satisfiable.
+
+Example C18_wf_inv_example :
+  wf_inv (ex_inv None [([112; 121], [([120], [([110], ex_item None); ([111], ex_item (Some [84]))])]);
+                       ([115], [([97; 58; 98], [([110], ex_item None)])])]).
+Proof. exact roundtrip_example. Qed.
+
 (* non-vacuity: a v2 file with py:module duplicates, a name with spaces, "$", "-", priority
    "-1", a malformed line and no final newline, read in three chunks *)
 Example C18_example :
